@@ -104,10 +104,13 @@ Truthy(x) == IF x.ty = "s" THEN Len(x.v) > 0 ELSE x.v # 0
 ReadInt(buf, off, n, be, signed) ==
   IF off < 0 \/ off + n > Len(buf) THEN U
   ELSE LET byte(k) == buf[off + (IF be THEN n - k ELSE k + 1)]       \* k-th least significant byte, k = 0..n-1
+           top == byte(n - 1)
+           \* two's complement: the most significant byte counts as top - 256 when the value is signed and its top bit is set
+           \* (so that 32-bit signed reads stay inside TLC's integers; unsigned 32-bit reads are generated with top < 0x80)
+           msb == IF signed /\ top >= 128 THEN top - 256 ELSE top
            RECURSIVE V(_)
-           V(k) == IF k = n THEN 0 ELSE byte(k) * Pow2(8 * k) + V(k + 1)
-           raw == V(0)          \* the generator keeps buffer bytes below 0x40, so 32-bit reads fit TLC's integers
-       IN IF signed /\ n < 4 /\ raw >= Pow2(8 * n - 1) THEN I(raw - Pow2(8 * n)) ELSE I(raw)
+           V(k) == IF k = n - 1 THEN msb * Pow2(8 * k) ELSE byte(k) * Pow2(8 * k) + V(k + 1)
+       IN I(V(0))
 
 \* ---- match-list queries (offsets 0-based; indexes of @ and ! are 1-based)
 Matches(env, s) == env.m[s]
